@@ -23,6 +23,10 @@ def run(ctx):
     ctx.guard(k19_match, ctx, "C02")
     from ..rules_misc import k21_match_overrides
     ctx.guard(k21_match_overrides, ctx, "C02")
+    # the illegal-site screen is part of the verdict: what it digests must be cut out of the circle by the match (group 0),
+    # not read off the record from wherever its origin happens to be (a site that straddles the origin would be missed)
+    from ..rules_pattern import module_screen_rule
+    ctx.guard(module_screen_rule, ctx, "C02.screen-rotation", threshold=False)
     from ..rules_misc import text_consumers_rule
     ctx.guard(text_consumers_rule, ctx, "C02.text-consumers")
     # every class must compile the pattern of its own structure(): what the accepted language rests on
